@@ -156,6 +156,26 @@ func (w *world) corrReplica(rep *replica, what string) {
 	}
 }
 
+// corrRebuild: the tree just built from storage against the model's `buildFromStorage` on the stored sequence.
+func (w *world) corrRebuild(rep *replica) {
+	cs, err := rep.st.CommonSnapshot(w.ctx)
+	if err != nil {
+		return
+	}
+	sids := storedIds(w.stored(rep))
+	in := newInterner(w.idsOf(sids))
+	parts := []string{"rebuild", fmt.Sprint(in.n(cs))}
+	for _, id := range sids {
+		parts = append(parts, in.change(w.info[id]))
+	}
+	op := strings.Join(parts, " ")
+	t := objecttree.VerifTree(rep.tree)
+	it := iterIds(rep.tree)
+	impl := fmt.Sprintf("ok %d %s heads=%s last=%d", in.n(rep.tree.Root().Id), in.list(it), in.sortedList(rep.tree.Heads()), in.n(t.VerifLastIteratedHeadId()))
+	modelCheck(w.r, "C06", "tree.rebuild", func() []string { return append(w.ops(), "reopen", op) }, op, impl)
+	w.r.Count("corr.tree.rebuild")
+}
+
 // corrLoader: the real loader's answer against the model's `respond` on the responder's stored sequence.
 func (w *world) corrLoader(resp *replica, theirHeads, theirPath []string, limit int, batches []loaderBatch, what string) {
 	ourPath, _ := resp.tree.SnapshotPath()
